@@ -7,7 +7,7 @@
     record freed once, stack empty) is the executable predicate family WB.Abi.Check.check_call_import /
     check_call_export evaluated by the check on the REAL streams. *)
 From Coq Require Import List NArith Arith.
-From WB Require Import Wit.Ty Canon.Spec Abi.Sig Abi.Instr Abi.CastSem Abi.Gen Abi.SigProofs Abi.SigFuncProofs Abi.GenDiscipline Abi.GenCallImport.
+From WB Require Import Wit.Ty Canon.Spec Abi.Sig Abi.Instr Abi.CastSem Abi.Gen Abi.SigProofs Abi.SigFuncProofs Abi.GenDiscipline Abi.GenCallImport Abi.GenCallExport.
 Import ListNotations.
 
 Theorem C02_core_signature_is_canonical : forall pw v fn,
@@ -34,5 +34,20 @@ Theorem C02_sync_import_call_never_panics : forall canon fn sig,
   ok_with (call canon fn GuestImport LowerArgsLiftResults false) gst0 (fun _ s' => stack s' = [] /\ realloc s' = None).
 Proof. exact call_import_sync_ok. Qed.
 
+(** The glue of a synchronous export (Generator::call, GuestExport, LiftArgsLowerResults), for EVERY non-method
+    signature of well-formed types: no panic site is reached - parameters are lifted from exactly the flat core
+    arguments ("failed to flatten types during direct parameter lifting" never fires) or read from the parameter
+    area, which is then freed by exactly one GuestDeallocate; the interface call receives exactly one operand per
+    parameter; the result is lowered flat or written to a return area whose pointer is returned; the Return
+    instruction consumes exactly sig.results.len() operands; realloc is unset and the stack empty at the end. *)
+Theorem C02_sync_export_call_never_panics : forall canon fn sig,
+  f_method fn = false ->
+  forallb valid_ty (f_params fn) = true ->
+  match f_result fn with Some t => valid_ty t = true | None => True end ->
+  wasm_signature GuestExport fn = SigOk sig ->
+  ok_with (call canon fn GuestExport LiftArgsLowerResults false) gst0 (fun _ s' => stack s' = [] /\ realloc s' = None).
+Proof. exact call_export_sync_ok. Qed.
+
+Print Assumptions C02_sync_export_call_never_panics.
 Print Assumptions C02_sync_import_call_never_panics.
 Print Assumptions C02_core_signature_is_canonical.
